@@ -53,6 +53,8 @@ def build(w, variant='apply'):
             modifies=hard0.modifies + kill.modifies,
             ensures=dict(hard0.ensures,
                          failed_before_the_worker_is_signalled='implies(g.term_sent or g.kill_sent, job._event.flag)',
+                         # a job that already has its result when the scan reaches it is left alone, and so is its worker
+                         a_resolved_job_costs_its_worker_nothing='implies(old(job._event.flag), not g.term_sent and not g.kill_sent)',
                          termination_signal_first='not g.kill_before_term or g.no_such_process'),
             raises=hard0.raises,
         )
